@@ -390,6 +390,26 @@ func (eng *Engine) registerIntrinsics() {
 		e.local["randctr"] = ctr
 		return Tuple{mkConst(64, uint64(len(b.v))), Iface{}}
 	}
+	in["maps.clone"] = func(e *Exec, fr *frame, fn *ssa.Function, args []Value) Value {
+		iv, ok := args[0].(Iface)
+		if !ok {
+			e.unsupported(fr, "maps.clone of %s", describe(args[0]))
+		}
+		m, ok := iv.V.(*Map)
+		if !ok {
+			e.unsupported(fr, "maps.clone of %s", describe(iv.V))
+		}
+		if m == nil {
+			return iv
+		}
+		nm := NewMap(m.keyT)
+		for _, en := range m.entries {
+			if !en.deleted {
+				e.mapInsert(fr, nm, en.k, en.v)
+			}
+		}
+		return Iface{T: iv.T, V: nm}
+	}
 	in["net.ParseIP"] = func(e *Exec, fr *frame, fn *ssa.Function, args []Value) Value {
 		ip := net.ParseIP(strArg(e, fr, args[0]))
 		if ip == nil {
